@@ -63,14 +63,16 @@ def run_case(spec):
     extras.add(r.choice(['gap', 'after']))
     if r.random() < 0.3:
       extras |= {'gap', 'after'}
-  exp = gen.gen_experiment(r, g, extras=extras, cost_mode=scenario)
+  date_style = {3: 'int0', 5: 'yyyymmdd', 6: 'iso', 8: 'int1', 10: 'date'}.get(spec['idx'] % 11)
+  micros = spec['idx'] % 9 == 4           # metrics stored as int64 micro-units
+  exp = gen.gen_experiment(r, g, extras=extras, cost_mode=scenario, date_style=date_style, int_dtype=(10 ** 6 if micros else None))
   frame = exp['frame']
   level = r.choice([0.9, 0.8, 0.95, 0.5, 0.99, round(r.uniform(0.05, 0.97), 3), 0.3])
   tails = r.choice([1, 2])
   counters = collections.Counter()
   violations = []
   desc = {k: exp[k] for k in ('n_pre', 'n_test', 'n_cool', 'n_ctl', 'n_trt', 'shape', 'extras', 'lift', 'int_dtype')}
-  desc.update(scenario=scenario, metric=metric, level=level, tails=tails)
+  desc.update(date_style=date_style, scenario=scenario, metric=metric, level=level, tails=tails)
   fpkey = [scenario, metric, tails, exp['shape'], exp['n_pre'], exp['n_test'], exp['n_cool'], sorted(extras), level]
 
   def add(clause, mech, detail):
